@@ -5,6 +5,8 @@ set -e
 cd "$(dirname "$0")"
 export GOFLAGS=-mod=mod GOPROXY=off GOSUMDB=off GOTOOLCHAIN=local
 mkdir -p .work evidence replays
-(cd lean && lake build)
 (cd harness && go build -tags verif ./... )
+# the fact tables (C19/C20) are regenerated from /repo; every check that uses them does it again
+(cd harness && go run -tags verif ./cmd/facts -repo /repo -out ../lean/Cqos/Facts)
+(cd lean && lake build)
 echo setup-ok
